@@ -43,6 +43,12 @@ CHECKS = {
  "C14": ("exploration", "runtime monitoring: prefix-state membership oracle against a never-lagging reference subscription, error-class table, list exactly-once oracle; lag, early drop, size limit and transport cuts injected",
          "Held on N seeded cases: a mirror that answered Ok at a quiescent checkpoint always presented the current state of the event history; lag, early drop of the collection, an exceeded size limit (through every growing event or the snapshot) and a cut connection were reported with the fitting error and kept being reported; detach() returned a state of the history; list subscribers (1-4, joining any time, slow, local/remote) received every element exactly once in order.",
          "judged at quiescence only; non-applying crafted events are not driven (not reached)", "DESIGN.md §3 C14", "history/differential"),
+ "C15": ("exploration", "runtime monitoring: monotone-with-skips and convergence-at-quiescence oracle over recorded observations of every watch receiver",
+         "Held on N seeded runs: every receiver (local, transferred over 1-2 connections while updates were in flight, subscribed late, sender half remote) observed only sent values in non-decreasing order through each observation API, and at quiescence held the last value sent, including one sent immediately before the sender was dropped.",
+         "increasing integer values; eventual observation restated as 'by quiescence of the healthy connection'", "DESIGN.md §3 C15", "rig+history"),
+ "C16": ("exploration", "runtime monitoring: lag-marker grammar oracle over each broadcast subscriber's recorded Ok/Lagged/Closed sequence",
+         "Held on N seeded runs with send/receive buffers 1-4, slow, idle, late and remote subscribers: strictly increasing values, every gap marked by a Lagged error exactly there, no spurious Lagged, draining subscribers saw everything, and every reading subscriber reached the end of the broadcast by quiescence although others never read.",
+         "consecutive integer values; 'never block or delay' restated as completion by quiescence", "DESIGN.md §3 C16", "rig+history"),
 }
 
 NOT_YET = "check not yet implemented in this commit (DESIGN.md §6a gives the order of implementation)"
